@@ -172,6 +172,9 @@ def gen_cell(rng, n):
                                   "parm": rng.choice([1e-7, 1e-6, 1e-5, 3e-5]), "steps": rng.choice([[100], [100, 200], [1000]]), "cvode": rng.chance(30),
                                   # reactants that run out in the middle of a time step, in a later integration sub-interval
                                   "step_divide": rng.choice([0, 0, 10, 50])}
+    if "kinetics" in d["kinds"] and any(b < 0 for a, b in d["kinds"]["kinetics"]["formula"]):
+        # a reactant that withdraws NaCl faster than the solution can supply it makes the integrator retry for minutes (no result to judge)
+        d["kinds"]["kinetics"]["parm"] = min(d["kinds"]["kinetics"]["parm"], 1e-6)
     if rng.chance(25):
         # edge case: an element that is absent from the whole cell while a gas phase / phase list still names it with zero moles
         d["sol"]["C"] = 0
